@@ -89,7 +89,7 @@ type SpecGo struct{ E ast.Expr }
 var clauseKeywords = map[string]bool{
 	"func": true, "props": true, "requires": true, "ensures": true, "assigns": true,
 	"loop": true, "let": true, "sweep": true, "decreases": true, "inline": true, "trusted": true,
-	"nosafety": true, "global": true, "opaque": true, "define": true,
+	"nosafety": true, "global": true, "opaque": true, "define": true, "assumes": true,
 }
 
 var labelRe = regexp.MustCompile(`^\[([A-Za-z0-9_.\-]+)\]\s*`)
